@@ -109,7 +109,10 @@ def standard_inputs(rep: Report, t: str, rng: random.Random, *, shapes_on: bool 
 
 def known_by_signature(rep: Report, stage: str, before: str, after: str, source: str):
     sh = blame.shape(before, after)
+    # an `input` pattern of a signature describes the text the guilty stage worked on; earlier stages may have
+    # produced the construct (a `with` made by missing_context_manager), so both texts are offered
+    case_text = source if before == source else source + "\n" + before
     for entry in rep.known_entries():
-        if blame.matches_signature(entry, stage, sh, source):
+        if blame.matches_signature(entry, stage, sh, case_text):
             return entry["id"], sh
     return None, sh
